@@ -21,19 +21,20 @@ CONC_TOL = 1e-6
 # Propositions: symbolic (list of labelled z3 conjuncts) or concrete (lenient/strict booleans)
 # ----------------------------------------------------------------------------------------------
 class P:
-    __slots__ = ('sym', 'conj', 'len', 'strict', 'info', 'fv')
+    __slots__ = ('sym', 'conj', 'len', 'strict', 'info', 'fv', 'fvr')
 
-    def __init__(self, sym, conj=None, lenient=None, strict=None, info=None, fv=None):
+    def __init__(self, sym, conj=None, lenient=None, strict=None, info=None, fv=None, fvr=None):
         self.sym = sym
         self.conj = conj          # sym: list of (label, z3 Bool)
         self.len = lenient        # conc: holds within tolerance
         self.strict = strict      # conc: holds with margin
         self.info = info
         self.fv = fv              # sym: truth value on the shadow samples (or None)
+        self.fvr = fvr            # sym: truth value on the samples with a loose tolerance (False = fails by a wide margin)
 
     @staticmethod
-    def s(term, label='', fv=None):
-        return P(True, [(label, term)], fv=fv)
+    def s(term, label='', fv=None, fvr=None):
+        return P(True, [(label, term)], fv=fv, fvr=fv if fvr is None and label in ('shape', 'const') else fvr)
 
     @staticmethod
     def c(lenient, strict=None, info=None):
@@ -45,12 +46,14 @@ class P:
 
     def __and__(self, o):
         if self.sym:
-            return P(True, self.conj + o.conj, fv=None if self.fv is None or o.fv is None else (self.fv & o.fv))
+            return P(True, self.conj + o.conj, fv=None if self.fv is None or o.fv is None else (self.fv & o.fv),
+                     fvr=None if self.fvr is None or o.fvr is None else (self.fvr & o.fvr))
         return P.c(self.len and o.len, self.strict and o.strict, (self.info, o.info))
 
     def __or__(self, o):
         if self.sym:
-            return P.s(z3.Or(self.term(), o.term()), fv=None if self.fv is None or o.fv is None else (self.fv | o.fv))
+            return P.s(z3.Or(self.term(), o.term()), fv=None if self.fv is None or o.fv is None else (self.fv | o.fv),
+                       fvr=None if self.fvr is None or o.fvr is None else (self.fvr | o.fvr))
         return P.c(self.len or o.len, self.strict or o.strict, (self.info, o.info))
 
     def __invert__(self):
@@ -151,6 +154,7 @@ class H:
                 a = hi - 3.0
             fv = core.seeded_samples(name, core.SAMPLE_RNG.uniform(a, b, core.K_SAMPLES))
             fv = core.exact_samples(name, fv, lo, hi)
+            CTX.fvs[name] = fv
             return SR(v, None, None, fv)
         v = self._value(name, sampler)
         if (lo is not None and v < lo - 1e-9 * (1 + abs(lo))) or (hi is not None and v > hi + 1e-9 * (1 + abs(hi))):
@@ -181,6 +185,7 @@ class H:
             g = core.sphere_samples([f"{name}{i}" for i in range(n)], g)
             for i in range(n):
                 v[i].fv = g[i]
+                CTX.fvs[f"{name}{i}"] = g[i]
             s = 0.0
             for e in v:
                 s = s + e * e
@@ -215,6 +220,7 @@ class H:
             if unit != 'rad':
                 x.fv = x.fv * (180.0 / math.pi)
             x.fv = core.seeded_samples(name, x.fv)
+            CTX.fvs[name] = x.fv
             CTX.inputs[name] = x.t
             if lo is not None:
                 CTX.domain.append(x.t >= lift(lo))
@@ -251,10 +257,10 @@ class H:
         return P.s(z3.BoolVal(ok), 'shape', _np.full(core.K_SAMPLES, ok)) if self.sym else P.c(ok, ok, f"shape {_np.shape(a)} vs {shape}")
 
     def true(self):
-        return P.s(z3.BoolVal(True), '', _np.ones(core.K_SAMPLES, dtype=bool)) if self.sym else P.c(True)
+        return P.s(z3.BoolVal(True), '', _np.ones(core.K_SAMPLES, dtype=bool), _np.ones(core.K_SAMPLES, dtype=bool)) if self.sym else P.c(True)
 
     def false(self):
-        return P.s(z3.BoolVal(False), '', _np.zeros(core.K_SAMPLES, dtype=bool)) if self.sym else P.c(False)
+        return P.s(z3.BoolVal(False), '', _np.zeros(core.K_SAMPLES, dtype=bool), _np.zeros(core.K_SAMPLES, dtype=bool)) if self.sym else P.c(False)
 
     def eq(self, a, b, tol=None):
         """a == b (element-wise conjunction). sym: exact unless tol given; conc: within tolerance"""
@@ -264,10 +270,12 @@ class H:
         if self.sym:
             conj = []
             fv = _np.ones(core.K_SAMPLES, dtype=bool)
+            fvr = _np.ones(core.K_SAMPLES, dtype=bool)
             for i, (x, y) in enumerate(pairs):
                 if core._is_nan(x) or core._is_nan(y) or _isinf(x) or _isinf(y):
                     conj.append((str(i), z3.BoolVal(False)))      # a concrete NaN / inf equals nothing
                     fv = None if fv is None else (fv & False)
+                    fvr = None if fvr is None else (fvr & False)
                     continue
                 tx, ty = lift(x), lift(y)
                 if tol is None:
@@ -276,7 +284,9 @@ class H:
                     conj.append((str(i), z3.And(tx - ty <= lift(tol), ty - tx <= lift(tol))))
                 d = core._fop(lambda u, w: _np.abs(u - w) <= (1e-9 if tol is None else tol) * (1 + _np.abs(w)), x, y)
                 fv = None if (fv is None or d is None) else (fv & d)
-            return P(True, conj, fv=fv)
+                dr = core._fop(lambda u, w: ~(_np.abs(u - w) > max(1e-4, 100 * (tol or 0.0)) * (1 + _np.abs(w))), x, y)
+                fvr = None if (fvr is None or dr is None) else (fvr & dr)
+            return P(True, conj, fv=fv, fvr=fvr)
         t = self.tol if tol is None else max(tol, self.tol)
         worst = 0.0
         for x, y in pairs:
@@ -295,10 +305,13 @@ class H:
             if any(core._is_nan(x) or core._is_nan(y) for x, y in pairs):
                 return P.s(z3.BoolVal(False), 'nan', _np.zeros(core.K_SAMPLES, dtype=bool))
             fv = _np.ones(core.K_SAMPLES, dtype=bool)
+            fvr = _np.ones(core.K_SAMPLES, dtype=bool)
             for x, y in pairs:
                 d = core._fop(lambda u, w: op(u, w), x, y)
                 fv = None if (fv is None or d is None) else (fv & d)
-            return P(True, [(str(i), op(lift(x), lift(y))) for i, (x, y) in enumerate(pairs)], fv=fv)
+                dr = core._fop(lambda u, w: op(u, w) | op(u - 1e-4 * (1 + _np.abs(w)), w) | op(u + 1e-4 * (1 + _np.abs(w)), w), x, y)
+                fvr = None if (fvr is None or dr is None) else (fvr & dr)
+            return P(True, [(str(i), op(lift(x), lift(y))) for i, (x, y) in enumerate(pairs)], fv=fv, fvr=fvr)
         ok_l = all(strict_op(builtins.float(x), builtins.float(y), self.tol) for x, y in pairs)
         ok_s = all(strict_op(builtins.float(x), builtins.float(y), -self.tol) for x, y in pairs)
         return P.c(ok_l, ok_s)
@@ -440,8 +453,17 @@ class H:
                 if z3.is_false(bad):
                     self.checks.append(dict(name=nm, bad=None, snap=snap, trivial=True))
                 else:
+                    cands = []
+                    if p.fvr is not None:
+                        try:
+                            for k in _np.nonzero(CTX.mask & ~_np.asarray(p.fvr, dtype=bool))[0][:3]:
+                                env = {n: builtins.float(v[k]) for n, v in CTX.fvs.items() if _np.isfinite(v[k])}
+                                if env:
+                                    cands.append(env)
+                        except Exception:
+                            cands = []
                     self.checks.append(dict(name=nm, bad=bad, snap=snap, trivial=False, mask=CTX.mask.copy(),
-                                            exact=dict(CTX.exact)))
+                                            exact=dict(CTX.exact), cands=cands))
         else:
             self.checks.append(dict(name=name, ok=p.len, info=p.info))
 
